@@ -167,18 +167,33 @@ package common
 //@      (v.ForBodyLoc.StartLine == 0 && v.ForBodyLoc.StartColumn == 0 && v.ForBodyLoc.EndLine == 0 && v.ForBodyLoc.EndColumn == 0)
 //@      || locContains(v.ForBodyLoc.StartLine, v.ForBodyLoc.StartColumn, v.ForBodyLoc.EndLine, v.ForBodyLoc.EndColumn, sl, sc, el, ec)
 //@      || locContains(v.Loc.StartLine, v.Loc.StartColumn, v.Loc.EndLine, v.Loc.EndColumn, sl, sc, el, ec)
+// A local declared by a `local` statement is not visible inside that statement (`local x = x + 1`, `local a, b = b, a`:
+// the names on the right are the outer ones); a lookup at the declared name itself still finds it. DeclStatLoc is the
+// statement's range for such a local and the zero range for every other binding. One exception is kept by the code on
+// purpose: inside the TABLE CONSTRUCTOR that initialises it the variable stays findable (key completion / hover /
+// definition on `local t = { k = 1 }` look t up at the cursor) - there the own-initialiser rule is still broken.
+//@ spec inDeclStat(v *VarInfo, sl int, sc int, el int, ec int) bool =
+//@      !(v.DeclStatLoc.StartLine == 0 && v.DeclStatLoc.StartColumn == 0 && v.DeclStatLoc.EndLine == 0 && v.DeclStatLoc.EndColumn == 0)
+//@      && locContains(v.DeclStatLoc.StartLine, v.DeclStatLoc.StartColumn, v.DeclStatLoc.EndLine, v.DeclStatLoc.EndColumn, sl, sc, el, ec)
+//@      && !locContains(v.Loc.StartLine, v.Loc.StartColumn, v.Loc.EndLine, v.Loc.EndColumn, sl, sc, el, ec)
+//@ spec inInitTable(v *VarInfo, sl int, sc int, el int, ec int) bool = typeis(v.ReferExp, "*ast.TableConstructorExp")
+//@      && locContains(as(v.ReferExp, "*ast.TableConstructorExp").Loc.StartLine, as(v.ReferExp, "*ast.TableConstructorExp").Loc.StartColumn,
+//@                     as(v.ReferExp, "*ast.TableConstructorExp").Loc.EndLine, as(v.ReferExp, "*ast.TableConstructorExp").Loc.EndColumn, sl, sc, el, ec)
 //@ spec visible(v *VarInfo, sl int, sc int, el int, ec int) bool = locBefore(v.Loc.StartLine, v.Loc.StartColumn, sl, sc)
 //@      && inForBody(v, sl, sc, el, ec)
+//@      && (!inDeclStat(v, sl, sc, el, ec) || inInitTable(v, sl, sc, el, ec))
 //@      && (selfFunc(v) || !(inInitFunc(v, sl, sc, el, ec) || inInitName(v, sl, sc, el, ec) || inInitCall(v, sl, sc, el, ec)))
 
 //@ func (*VarInfo).IsCorrectPosition
 //@   props C05 C06 C07 C11 C13
 //@   sweep C01
 //@   ensures[is-lua-visibility] result <==> visible(varInfo, loc.StartLine, loc.StartColumn, loc.EndLine, loc.EndColumn)
-//@   ensures[C05,not-visible-in-own-initialiser-of-any-kind] typeis(varInfo.ReferExp, "*ast.BinopExp")
-//@        && locContains(as(varInfo.ReferExp, "*ast.BinopExp").Loc.StartLine, as(varInfo.ReferExp, "*ast.BinopExp").Loc.StartColumn,
-//@                       as(varInfo.ReferExp, "*ast.BinopExp").Loc.EndLine, as(varInfo.ReferExp, "*ast.BinopExp").Loc.EndColumn,
-//@                       loc.StartLine, loc.StartColumn, loc.EndLine, loc.EndColumn) ==> !result
+// from the property statement: "a local is not visible inside its own initialiser" - for every kind of initialiser and
+// every name of the statement; fails for table-constructor initialisers (known finding, see the exception above)
+//@   ensures[C05,not-visible-inside-its-own-declaring-statement] inDeclStat(varInfo, loc.StartLine, loc.StartColumn, loc.EndLine, loc.EndColumn) ==> !result
+// what does hold: everywhere in the declaring statement outside such a table constructor
+//@   ensures[C05,not-visible-inside-its-own-declaring-statement-outside-a-table-constructor] inDeclStat(varInfo, loc.StartLine, loc.StartColumn, loc.EndLine, loc.EndColumn)
+//@        && !inInitTable(varInfo, loc.StartLine, loc.StartColumn, loc.EndLine, loc.EndColumn) ==> !result
 //@ end
 
 // FindLocVar: the nearest enclosing scope that has a visible declaration of the name wins; inside it the LAST one (shadowing).
@@ -257,8 +272,10 @@ package common
 // C07: a new binding starts unread and without any exemption from the unused-local report
 //@ func (*ScopeInfo).AddLocVar
 //@   sweep C01
-//@   props C07
+//@   props C07 C05
 //@   ensures[C07,new-binding-starts-unread-and-not-exempt] result != nil && !result.IsClose && !result.IsUse && !result.IsParam && !result.IsForParam && result.ReferFunc == nil && result.Loc == loc
+//@   ensures[C05,new-binding-has-no-statement-or-loop-range-yet] result.DeclStatLoc.StartLine == 0 && result.DeclStatLoc.StartColumn == 0 && result.DeclStatLoc.EndLine == 0 && result.DeclStatLoc.EndColumn == 0
+//@        && result.ForBodyLoc.StartLine == 0 && result.ForBodyLoc.StartColumn == 0 && result.ForBodyLoc.EndLine == 0 && result.ForBodyLoc.EndColumn == 0
 //@ end
 
 // ---- C19: document-symbol outline of local declarations ----
@@ -408,13 +425,14 @@ package common
 //@ end
 
 // ---- C20: canonical key of a table-constructor field (duplicate-key check, type 5) ----
-// integer keys are spelled "#int<decimal>", string keys verbatim, so [1] and ["1"] are different keys; a name key k is
-// spelled with a leading "!" (fmt.Sprintf: outside the model, not stated).  Not covered: a STRING key that itself
-// starts with "#int" or "!" can still collide with an integer / name key (DESIGN.md, holes).
+// integer keys are spelled "#int<decimal>", string keys "#str<text>", a variable key k "!k" (fmt.Sprintf: outside the
+// model, not stated): the three kinds differ in their first two bytes, so [1], ["1"] and ["#int1"] are different keys.
+// Injectivity WITHIN a kind (strconv.FormatInt, the text itself) is not stated.
 //@ func GetTableConstuctorKeyStr
 //@   props C20
 //@   ensures[integer-keys-have-their-own-spelling] typeis(node, "*ast.IntegerExp") ==> len(strKey) > 4 && strKey[0] == 35 && strKey[1] == 105 && strKey[2] == 110 && strKey[3] == 116
-//@   ensures[string-key-is-the-string-itself] typeis(node, "*ast.StringExp") ==> streq(strKey, as(node, "*ast.StringExp").Str) && loc == as(node, "*ast.StringExp").Loc
+//@   ensures[string-keys-have-their-own-spelling] typeis(node, "*ast.StringExp") ==> len(strKey) == 4 + len(as(node, "*ast.StringExp").Str) && strKey[0] == 35 && strKey[1] == 115 && strKey[2] == 116 && strKey[3] == 114
+//@        && loc == as(node, "*ast.StringExp").Loc
 //@   ensures[other-expressions-have-no-canonical-key] !typeis(node, "*ast.IntegerExp") && !typeis(node, "*ast.StringExp") && !typeis(node, "*ast.NameExp") ==> len(strKey) == 0
 //@ end
 
